@@ -121,7 +121,7 @@ ACC = (["%02x01" % o for o in (0x04, 0x0C, 0x14, 0x1C, 0x24, 0x2C, 0x34, 0x3C, 0
 MOVES = ["89c1", "89d9", "89c2", "89d8", "01c8", "29d8", "8d0403", "31c8"]
 # emulations that raise inside eval_instr after some registers were evaluated (rol / rcl on concrete operands: listed C11 / C06 findings)
 RAISING = [["b834120000", "c1c005"], ["bb00100000", "d1c3"], ["b9ffff0000", "d1d1"], ["b834120000", "89c3", "c1c308"]]
-RETS = ["c3", "66c3", "cb", "66cb", "c20400", "66c20400", "ca0800", "c9", "cf", "66cf"]
+RETS = ["c3", "66c3", "cb", "66cb", "c20400", "66c20400", "ca0800", "c9", "66c9", "cf", "66cf", "60", "6660", "61", "6661", "9c", "669c", "9d", "669d", "98", "6698", "99", "6699"]
 X87 = ["d9%02x" % m for m in range(0xE0, 0x100)] + ["ded9", "dae9", "d8d9", "d8c1", "dcc1", "dec1", "d8e1", "dce1", "d8e9", "dce9", "d9c9", "ddd9", "dde1", "dfe0"]
 
 
@@ -150,12 +150,26 @@ def line_pairs():
     return out
 
 
+def lift_pairs(pool):
+    """every ordered pair of two different byte strings of one family, lifted one after the other (two-call histories): strings of a
+    family share a mnemonic, an implicit operand or a helper, so whatever the first lift leaves behind is what the second would pick up"""
+    out = []
+    fams = families(pool)
+    for f in ("returns", "x87-stack", "rep", "moves", "accumulator"):
+        ms = fams.get(f, [])[:24 if f == "returns" else 16]
+        for a in ms:
+            for b in ms:
+                if a != b:
+                    out.append([{"k": "lift", "b": a}, {"k": "lift", "b": b}])
+    return out
+
+
 def w_pairs(run, st_, k, chunk):
     zyg = ZYGOTES[k % len(ZYGOTES)]
     for h in chunk:
         st_.ev()
         fails = run_history(h, zyg)
-        st_.klass("operand-text-pair")
+        st_.klass("operand-text-pair" if h[0]["k"] == "asm" else "family-lift-pair")
         bad = False
         for f in fails:
             sig, det = runner.norm_sig(f[0]), f[1]
@@ -467,9 +481,10 @@ def main(run):
             raise runner.Inconclusive("probe self-test failed: %s -> %r" % (json.dumps(p_), r_))
     only = os.environ.get("VERIF_C12_ONLY")        # developer switch
     if only in (None, "hist"):
-        runner.pmap(run, w_hist, [(run.pick(60, 1500), bs, lines)] * 16)
+        runner.pmap(run, w_hist, [(run.pick(40, 1500), bs, lines)] * 16)
         prs = line_pairs()
         runner.pmap(run, w_pairs, runner.chunks(prs if run.tier == "thorough" else prs[run.seed % 3::3], 16))
+        runner.pmap(run, w_pairs, runner.chunks(lift_pairs(bs), 16))
     if only in (None, "cache"):
         cache_matrix(run)
     for z in ZYGOTES:
